@@ -189,8 +189,11 @@ def apply_edit(root, st):
             del data[pos:]
         elif k == "append":
             data += b"\n"
+        st0 = os.stat(f)
         with open(f, "wb") as fh:
             fh.write(bytes(data))
+        if st.get("keep_mtime"):            # bit rot, cp -p, rsync -t: the bytes change, the time stamps do not
+            os.utime(f, ns=(st0.st_atime_ns, st0.st_mtime_ns))
     elif op == "rmmanifest":
         h = os.path.join(root, st["hist"])
         gens = dict(impl.list_manifests(h))
@@ -205,6 +208,8 @@ def cli_args(root, st, aux):
     """-> (command name, argv).  aux: directory for pattern files / flatten destination"""
     op = st["op"]
     r = os.path.join(root, st.get("root", "")) if st.get("root") else root
+    if st.get("spell") == "slash":          # the same folder, typed with a trailing separator
+        r = r + os.sep
     if op == "create":
         a = [r]
         for f in st.get("fmts") or []:
